@@ -40,14 +40,15 @@ def kindOf (dc : Bool) : Pc → String
   | .csGet _ | .csSet _ => "caches"
   | .ccTest _ | .ccRead _ => "cc.read"
   | .ccWrite _ _ | .ccReset _ => "cc.write"
-  | .probe _ | .relook _ | .cuStrongGet _ _ _ => "strong.get"
+  | .probeL _ | .crSetL _ _ => "strong.load"
+  | .probe _ _ | .relook _ | .cuStrongGet _ _ _ => "strong.get"
   | .acq _ | .nAcq _ | .exAcq _ | .eaAcq | .cuAcq _ => "acquire"
   | .relRel _ _ | .relSet _ _ | .finRel _ _ | .finRelNF _ | .exRel | .exRelErr | .eaRel | .eaRelErr
   | .cuRel _ | .cuRelErr => "release"
   | .weakGet _ | .cuWeakChk _ _ | .nProbe _ | .nRelook _ => "weak.get"
   | .weakDel _ _ | .weakDelDead _ _ | .exDelWeak _ | .cuWeakPop _ _ _ _ => "weak.del"
   | .strongSet _ _ => "strong.set"
-  | .put _ _ | .crSet _ _ => if dc then "strong.set" else "weak.set"
+  | .put _ _ | .crSet _ _ _ => if dc then "strong.set" else "weak.set"
   | .eaEntry => "ea.entry"
   | .select _ | .crSelect _ _ => "db.select"
   | .insert _ => "db.insert"
